@@ -153,6 +153,226 @@ def context_schema():
     return Schema({"nodes": nodes, "marks": {k: dict(v) for k, v in basic_schema.spec["marks"].items()}})
 
 
+# ---------------------------------------------------------------------------------------------
+# generated context-rule schemas: parse rules restricted by context expressions of every form (`a/`, `a/b/`, `a//`,
+# `a//b/`, `a/b//`, group names, `x|y`) over a vocabulary in which places of equal depth and equal innermost open node have
+# different outer ancestors (bullet_list / ordered_list / blockquote nest freely), and HTML that visits such places in one
+# document.  Oracle on the result (`context_rule_audit`): every marked leaf element became the node type of the first rule for
+# its tag whose expression matches the ancestors the node has in the result.
+
+CTX_UNITS = {"ul": ["bullet_list", "list_item"], "ol": ["ordered_list", "list_item"], "bq": ["blockquote"]}
+CTX_LEAF_TAGS = ["p", "aside", "section", "h6", "figure"]
+
+
+def ctx_chain_types(chain):
+    return [n for u in chain for n in CTX_UNITS[u]]
+
+
+def gen_ctx_chain(rng, lo=1, hi=3):
+    return [rng.choice(["ul", "ol", "bq", "ul", "ol"]) for _ in range(rng.randint(lo, hi))]
+
+
+def gen_wellformed_context(rng, tail=()):
+    """a context expression in documented form, read off a chain of ancestors that the HTML generator can produce (so that it
+    matches somewhere and fails elsewhere); `tail`: names that may follow the containers (the textblock, for mark rules)"""
+    def one():
+        names = ["doc"] + ctx_chain_types(gen_ctx_chain(rng)) + ([rng.choice(tail)] if tail and rng.random() < 0.7 else [])
+        k = rng.randint(1, min(3, len(names)))
+        parts = names[-k:]
+        for i in range(len(parts)):
+            r = rng.random()
+            if r < 0.12 and parts[i] in ("blockquote", "bullet_list", "ordered_list"):
+                parts[i] = "block"                 # a group name
+            elif r < 0.3 and 0 < i:
+                parts[i] = ""                      # `a//b`: any number of ancestors in between
+        if parts[0] == "":
+            parts[0] = names[-k]
+        e = "/".join(parts)
+        return e + ("//" if rng.random() < 0.3 else "/")
+    alts = [one() for _ in range(1 if rng.random() < 0.7 else 2)]
+    return rng.choice(["|", " | ", "| "]).join(alts)
+
+
+def gen_context_rule_schema(rng):
+    """basic + list nodes + 2–4 textblock types that only context-restricted rules create (one or two rules each, on a small set
+    of tags, different priorities), sometimes an unrestricted fallback type for a tag; a mark with context-restricted tag and style
+    rules.  Returns (schema, table, leaf tags, auditable) — the table lists the context rules for the replay."""
+    from prosemirror.schema.list import add_list_nodes
+    # (with `paragraph block*` items a block that is not a paragraph cannot stand first in an item: the parser then closes or
+    # drops open nodes, and the ancestors of the result are not the ancestors that were open — tie only, no audit)
+    item_content = "block+" if rng.random() < 0.7 else "paragraph block*"
+    nodes = add_list_nodes({k: dict(v) for k, v in basic_schema.spec["nodes"].items()}, item_content, "block")
+    nodes = {k: dict(v) for k, v in nodes.items()}
+    marks = {k: dict(v) for k, v in basic_schema.spec["marks"].items()}
+    tags = rng.sample(CTX_LEAF_TAGS, rng.randint(2, 3))
+    if "p" not in tags and rng.random() < 0.7:
+        tags[0] = "p"
+    table = []
+    prios = rng.sample(range(55, 95), 12)
+    for i in range(rng.randint(2, 4)):
+        name = "probe%d" % i
+        rules = []
+        for _ in range(rng.randint(1, 2)):
+            rule = {"tag": rng.choice(tags), "context": gen_wellformed_context(rng), "priority": prios.pop()}
+            rules.append(rule)
+            table.append([rule["tag"], rule["context"], name, rule["priority"]])
+        nodes[name] = {"content": "inline*", "group": "block", "parseDOM": rules, "toDOM": lambda _: ["div", 0]}
+    for t in tags:
+        if t not in ("p", "h6") and rng.random() < 0.5:
+            nodes["plain_" + t] = {"content": "inline*", "group": "block", "parseDOM": [{"tag": t}], "toDOM": lambda _: ["div", 0]}
+            table.append([t, None, "plain_" + t, 50])
+    blocks = ["paragraph", "block"] + [n for n in nodes if n.startswith("probe")]
+    mrules = [{"tag": "u", "context": gen_wellformed_context(rng, blocks), "priority": prios.pop()}]
+    if rng.random() < 0.5:
+        mrules.append({"tag": "u", "context": gen_wellformed_context(rng, blocks), "priority": prios.pop()})
+    if rng.random() < 0.6:
+        mrules.append({"style": "color", "context": gen_wellformed_context(rng, blocks)})
+    marks["ctxmark"] = {"parseDOM": mrules, "toDOM": lambda _, __: ["u", 0]}
+    for r in mrules:
+        table.append([r.get("tag") or "style:" + r["style"], r["context"], "mark ctxmark", r.get("priority", 50)])
+    return Schema({"nodes": nodes, "marks": marks}), table, tags, item_content == "block+"
+
+
+def gen_ctx_html(rng, tags):
+    """well-formed HTML over ul / ol / li / blockquote with marked leaves: leaf k is `<tag>w{k} …</tag>`, optionally with a
+    `<u>m{k}</u>` / `<span style="color: red">c{k}</span>` piece.  Block tags stand only where blocks may stand and text only in
+    leaves, so placement never closes or wraps anything and a node's ancestors in the result are the nodes that were open when
+    its element was matched.  Most fragments contain *twin places*: the same leaves under two or three chains of equal depth and
+    equal innermost container but different outer ancestors."""
+    counter = [0]
+
+    def leaf(tag=None):
+        counter[0] += 1
+        k = counter[0]
+        tag = tag or rng.choice(tags + ["p"])
+        body = "w%d" % k
+        r = rng.random()
+        if r < 0.3:
+            body += " <u>m%d</u>" % k
+        elif r < 0.4:
+            body += ' <span style="color: red">c%d</span>' % k
+        elif r < 0.45:
+            body = "<u>m%d</u>" % k
+        return f"<{tag}>{body}</{tag}>"
+
+    def wrap(chain, inner):
+        for u in reversed(chain):
+            inner = f"<blockquote>{inner}</blockquote>" if u == "bq" else f"<{u}><li>{inner}</li></{u}>"
+        return inner
+
+    def blocks(depth):
+        out = []
+        for _ in range(rng.randint(1, 2 if depth else 3)):
+            r = rng.random()
+            if r < 0.45 or depth >= 3:
+                out.append(leaf())
+            elif r < 0.65:
+                out.append("<blockquote>" + blocks(depth + 1) + "</blockquote>")
+            else:
+                u = rng.choice(["ul", "ol"])
+                out.append(f"<{u}>" + "".join("<li>" + blocks(depth + 1) + "</li>" for _ in range(rng.randint(1, 2))) + f"</{u}>")
+        return "".join(out)
+
+    items = []
+    if rng.random() < 0.8:
+        a = gen_ctx_chain(rng)
+        depth = len(ctx_chain_types(a))
+        twins = [a]
+        for _ in range(40):
+            b = gen_ctx_chain(rng)
+            if len(ctx_chain_types(b)) == depth and CTX_UNITS[b[-1]][-1] == CTX_UNITS[a[-1]][-1] and b not in twins:
+                twins.append(b)
+                if len(twins) == 3 or rng.random() < 0.6:
+                    break
+        leaf_tags = [rng.choice(tags + ["p"]) for _ in range(rng.randint(1, 2))]
+        for ch in twins:
+            items.append(wrap(ch, "".join(leaf(t) for t in leaf_tags)))
+    for _ in range(rng.randint(0, 2)):
+        items.append(blocks(0))
+    rng.shuffle(items)
+    html = "".join(items)
+    if rng.random() < 0.25:
+        html = wrap(gen_ctx_chain(rng, 1, 1), html)
+    return html
+
+
+def ref_context_match(expr, anc):
+    """documented meaning of a context expression, as a forward match: `anc` are the open ancestors, outermost first (node
+    types); the expression describes the innermost ones — names or group names separated by `/`, an empty segment (`//`) standing
+    for any number of ancestors, alternatives separated by `|`"""
+    for alt in re.split(r"\s*\|\s*", expr):
+        parts = alt.split("/")
+        if parts and parts[-1] == "":
+            parts.pop()
+
+        def ok(i, j):
+            if i == len(parts):
+                return j == len(anc)
+            if parts[i] == "":
+                return any(ok(i + 1, k) for k in range(j, len(anc) + 1))
+            return j < len(anc) and (anc[j].name == parts[i] or parts[i] in anc[j].groups) and ok(i + 1, j + 1)
+        if any(ok(0, j) for j in range(len(anc) + 1)):
+            return True
+    return False
+
+
+def context_rule_audit(parser, doc, html, tags):
+    """problems of a parsed gen_ctx_html document: a marked leaf whose node type is not the one the rules dictate for the
+    ancestors it has, a marked inline piece that carries / lacks the context-restricted mark against its rules"""
+    bad = []
+    leaf_tags = list(tags) + ["p"]
+    node_rules = {}
+    for r in parser._tags:
+        if r.tag in leaf_tags and r.node:
+            node_rules.setdefault(r.tag, []).append(r)
+    mark_tag_rules = [r for r in parser._tags if r.tag == "u" and r.mark == "ctxmark"]
+    mark_style_rules = [r for r in parser._styles if r.mark == "ctxmark"]
+    src = {k: tag for tag, k in re.findall(r"<(\w+)>(?:<u>)?[wm](\d+)", html) if tag in leaf_tags}
+    seen = set()
+
+    def path(anc):
+        return "/".join(t.name for t in anc)
+
+    def walk(node, anc):
+        if node.is_textblock:
+            txt = node.text_content
+            m = re.match(r"[wm](\d+)", txt)
+            tag = src.get(m.group(1)) if m else None
+            want = None
+            if tag is not None:
+                seen.add(m.group(1))
+                rules = node_rules.get(tag, [])
+                want = next((r.node for r in rules if not r.context or ref_context_match(r.context, anc)), None)
+                owners = {r.node for r in rules if r.context}
+                if want is not None and node.type.name != want:
+                    bad.append(f"<{tag}> with text {txt!r} under {path(anc)} became {node.type.name}; the first rule for "
+                               f"<{tag}> whose context matches these ancestors gives {want}")
+                elif want is None and node.type.name in owners:
+                    bad.append(f"<{tag}> with text {txt!r} under {path(anc)} became {node.type.name} although no "
+                               f"context of its rules matches these ancestors")
+            inner = anc + [node.type]
+            for c in node.content.content:
+                # (a leaf element that no rule takes is transparent: its textblock is the wrapper made when the first text
+                # arrives, so it may or may not have been open when an inline element was matched — not judged)
+                if not c.is_text or tag is None or want is None:
+                    continue
+                has = any(mk.type.name == "ctxmark" for mk in c.marks)
+                for piece in re.findall(r"[wmc]\d+", c.text):
+                    rules = mark_tag_rules if piece[0] == "m" else mark_style_rules if piece[0] == "c" else []
+                    want_mark = any(ref_context_match(r.context, inner) for r in rules)
+                    if has != want_mark:
+                        bad.append(f"text {piece!r} under {path(inner)} {'carries' if has else 'lacks'} the mark whose "
+                                   f"rules {[r.context for r in rules]} {'do not match' if has else 'match'} these ancestors")
+            return
+        for c in node.content.content:
+            if not c.is_text and not c.is_leaf:
+                walk(c, anc + [node.type])
+    walk(doc, [])
+    if len(seen) != len(src):
+        bad.append(f"leaves {sorted(set(src) - seen)} of the HTML are not textblocks of the result")
+    return bad
+
+
 def fill_schema():
     """content expressions that need filling at `finish` (a section starts with a heading, a row has exactly two cells)
     and wrappers found through several levels"""
@@ -310,23 +530,45 @@ def context_tie(ctx, infos):
             visible += [rp.node(i).type for i in range(rp.depth + 1)]
         visible += [n.type for n in pc.nodes[:pc.open + 1] if n.type is not None]
         exprs = [gen_context_expr(rng, info, visible) for _ in range(8)]
-        answers = []
-        for e in exprs:
-            st, v = outcome(lambda: pc.matches_context(e), 2.0)
-            ctx.count("matches_context:" + (str(v) if st == "ok" else st))
-            answers.append(v if st == "ok" else {"raised": st, "what": v})
-            ctx.case(["matches_context", info.name, [n.type.name if n.type else None for n in pc.nodes], pc.open, is_open,
-                      None if rp is None else [rp.node(i).type.name for i in range(rp.depth + 1)], e],
-                     nontrivial=bool(e.strip("/ |")), sample={"op": "matches_context", "schema": info.name, "expr": e,
-                                                             "stack": [n.type.name if n.type else None for n in pc.nodes]})
-        req = {"op": "matchesContext", "s": sid,
-               "groups": [list(schema.nodes[n].groups) for n in info.node_names],
-               "nodes": [None if n.type is None else info.nid[n.type.name] for n in pc.nodes],
-               "open": pc.open, "isOpen": is_open,
-               "ctx": None if rp is None else [info.nid[rp.node(i).type.name] for i in range(rp.depth + 1)],
-               "exprs": exprs}
-        reqs.append(req)
-        metas.append(answers)
+
+        def ask():
+            answers = []
+            for e in exprs:
+                st, v = outcome(lambda: pc.matches_context(e), 2.0)
+                ctx.count("matches_context:" + (str(v) if st == "ok" else st))
+                answers.append(v if st == "ok" else {"raised": st, "what": v})
+                ctx.case(["matches_context", info.name, [n.type.name if n.type else None for n in pc.nodes], pc.open, is_open,
+                          None if rp is None else [rp.node(i).type.name for i in range(rp.depth + 1)], e],
+                         nontrivial=bool(e.strip("/ |")), sample={"op": "matches_context", "schema": info.name, "expr": e,
+                                                                 "stack": [n.type.name if n.type else None for n in pc.nodes]})
+            reqs.append({"op": "matchesContext", "s": sid,
+                         "groups": [list(schema.nodes[n].groups) for n in info.node_names],
+                         "nodes": [None if n.type is None else info.nid[n.type.name] for n in pc.nodes],
+                         "open": pc.open, "isOpen": is_open,
+                         "ctx": None if rp is None else [info.nid[rp.node(i).type.name] for i in range(rp.depth + 1)],
+                         "exprs": exprs})
+            metas.append(answers)
+        ask()
+        # the same ParseContext at another place of the same parse: nodes closed and others opened (the depth and the innermost
+        # open node often the same as before, the ancestors in between different), the same expressions asked again
+        for _ in range(rng.choice([0, 1, 1, 2])):
+            r = rng.random()
+            movable = [i for i in range(1, len(pc.nodes)) if i != pc.open]
+            if r < 0.6 and movable:
+                for i in rng.sample(movable, rng.randint(1, min(2, len(movable)))):
+                    pc.nodes[i] = NodeContext(rng.choice(types), None, [], [], False, None, 0)
+                ctx.count("matches_context:second-place-same-depth-and-top")
+            elif r < 0.8 and len(pc.nodes) > 1:
+                keep = rng.randint(1, len(pc.nodes) - 1)
+                del pc.nodes[keep:]
+                for _ in range(rng.randint(0, 3)):
+                    pc.nodes.append(NodeContext(rng.choice(types), None, [], [], False, None, 0))
+                pc.open = len(pc.nodes) - 1
+                ctx.count("matches_context:second-place-reopened")
+            else:
+                pc.open = rng.randint(0, len(pc.nodes) - 1)
+                ctx.count("matches_context:second-place-other-depth")
+            ask()
     if reqs:
         outs = ctx.driver.run(reqs)
         for req, answers, out in zip(reqs, metas, outs):
@@ -1167,6 +1409,11 @@ def run(ctx):
             walk_case(replay, info, sid, pcs[0], st_r, "parse")
         else:
             ctx.count("placement:not-recorded")
+            if st_r != "ok" or doc_r.to_json() != j:
+                # the schema's parser object is shared by every parse of the process: a second parse of the same input is a
+                # second call on the same object and must give the same document
+                ctx.violation("parse-repeat", "parsing the same HTML fragment a second time with the same schema's parser did not give the "
+                              f"same document: {st_r} {str(doc_r)[:200]}", dict(replay, first=j))
         if rng.random() < 0.5:
             (st_s, sl), pcs = recorded(info, lambda: parsers[name].parse_slice(dom))    # `dom` now carries the lxmltext nodes
             if st_s == "ok" and len(pcs) == 1 and pcs[0]._supported:
@@ -1242,6 +1489,50 @@ def run(ctx):
             (st_s, sl), pcs = recorded(rinfo, lambda: rparser.parse_slice(dom))
             if st_s == "ok" and len(pcs) == 1:
                 walk_case(dict(replay, slice=True, open=[sl.open_start, sl.open_end]), rinfo, sid, pcs[0], st_s, "parse_slice", True)
+    # ---- generated context-rule schemas: rules restricted by context expressions of every form, HTML with several places of
+    # equal depth and innermost open node under different ancestors (validity oracle, context-rule oracle on the result,
+    # whole-parse tie)
+    gen_ctx_schemas = []
+    quick = ctx.tier == "quick"
+    for gi in range(8 if quick else 30):
+        if ctx.time_left() < 0:
+            break
+        gschema, gtable, gtags, auditable = gen_context_rule_schema(rng)
+        ginfo = codec.SchemaInfo(gschema, "context-gen-%d" % gi)
+        gparser = DOMParser.from_schema(gschema)
+        infos[ginfo.name] = ginfo
+        gen_ctx_schemas.append((ginfo.name, gschema))
+        ctx.count("context_gen_schemas")
+        for _, cexpr, _, _ in gtable:
+            if cexpr:
+                ctx.count("context_gen_rule_form:" + ("alt:" if "|" in cexpr else "") + re.sub(r"[a-z_0-9]+", "a", re.split(r"\s*\|\s*", cexpr)[0]))
+        for _ in range(24 if quick else 60):
+            html = gen_ctx_html(rng, gtags) if rng.random() < 0.85 else gen_html(rng)
+            structured = bool(re.match(r"(<(ul|ol|blockquote|li|p|aside|section|h6|figure)>)+(<u>)?[wm]\d+", html))
+            replay = {"schema": ginfo.name, "context_rules": gtable, "html": html}
+            ctx.case(["parse", "context-gen", gtable, html], nontrivial=bool(html.strip()), sample=None)
+            sid = ctx.driver.add_schema(ginfo)
+            dom = html_fragment(html)
+            (st_r, doc_r), pcs = recorded(ginfo, lambda: gparser.parse(dom))
+            ctx.count("parse:" + st_r)
+            ctx.count("context_gen_parses")
+            if st_r != "ok":
+                ctx.violation("parse-" + ("hang" if st_r == "hang" else "raises"), f"parsing an HTML fragment did not return a document: {doc_r}", replay)
+                continue
+            if len(pcs) == 1:
+                walk_case(replay, ginfo, sid, pcs[0], st_r, "context-gen")
+            j = doc_r.to_json()
+            prob = validator(gschema).problem(j)
+            stc, err = outcome(doc_r.check)
+            if prob or stc != "ok":
+                ctx.violation("parse-invalid", f"the parsed document is not schema-valid: {prob or err}", dict(replay, doc=j))
+            elif structured and auditable:
+                bad = context_rule_audit(gparser, doc_r, html, gtags)
+                ctx.count("context_gen_audits")
+                ctx.count("context_gen_audited_leaves", len(re.findall(r"[wmc]\d+", html)))
+                if bad:
+                    ctx.violation("context-rule", "a context-restricted parse rule was applied where the open ancestors do not match, or not "
+                                  "applied where they do: " + bad[0], dict(replay, doc=j, problems=bad[:5]))
     edge_infos = [(n, infos[n], parsers[n]) for n in ("basic", "list", "context", "fill")] + [("rules", rinfo, rparser)]
     for html in WALK_EDGE_HTML:
         for n, einfo, eparser in edge_infos:
@@ -1282,7 +1573,7 @@ def run(ctx):
         ctx.count("crash_case:self-filling:" + st_r)
         if len(pcs) == 1:
             walk_case({"schema": "self-filling", "html": html}, xinfo, sid, pcs[0], st_r, "crash-case")
-    ctx.guard(lambda: rules_spec_tie(ctx, parse_schemas + extra_schemas + [("rules", rinfo.schema), ("strip", sinfo.schema)]), "rules_spec_tie")
+    ctx.guard(lambda: rules_spec_tie(ctx, parse_schemas + extra_schemas + [("rules", rinfo.schema), ("strip", sinfo.schema)] + gen_ctx_schemas), "rules_spec_tie")
     # the decidable schema hypotheses of the import theorems (Det, TextStable, LeafOk, fillOk) on every schema of the tie
     hyps = {}
     hyp_infos = list(infos.values())
